@@ -41,8 +41,18 @@ Theorem C06_output_file_examples :
 Proof. exact out_file_examples. Qed.
 
 
+(** the keys the struct routines read and write ([dart_json_keys], compared with the text of fromJson / toJson on
+    every run) are exactly the keys Go uses, in field order, one constructor argument per key *)
+Theorem C06_struct_routines_use_the_go_keys : forall n,
+  forallb tag_supported (map sfield_of (nr_fields n)) = true ->
+  dart_json_keys n = std_keys (filter (fun f => negb (gomacro_ignored f)) (map sfield_of (nr_fields n)))
+  /\ dart_ctor_args n = map lower_first_ok (dart_json_keys n).
+Proof. exact json_keys_are_go_keys. Qed.
+
+
 Print Assumptions C06_keys_and_constructor_arguments.
 Print Assumptions C06_enum_value_table_roundtrip.
 Print Assumptions C06_positional_enum_index_is_value.
 Print Assumptions C06_output_files_are_flat.
 Print Assumptions C06_output_file_examples.
+Print Assumptions C06_struct_routines_use_the_go_keys.
